@@ -23,6 +23,9 @@ type clientHello struct {
 	hasECHOuterExtensions bool
 	tls13                 bool
 	echExt                *echExt
+	// noExtensions is set when the message has no extensions field at all
+	// (allowed before TLS 1.3), as opposed to an empty one.
+	noExtensions bool
 }
 
 // The ECH Extension as specified in Section 5 of
@@ -95,6 +98,9 @@ func (c *clientHello) marshal(aad bool) ([]byte, error) {
 				b.AddBytes(c.LegacyCompressionMethods)
 			})
 
+			if c.noExtensions {
+				return
+			}
 			b.AddUint16LengthPrefixed(func(b *cryptobyte.Builder) {
 				for _, ext := range c.Extensions {
 					b.AddUint16(ext.Type)
@@ -181,8 +187,12 @@ func parseClientHello(buf []byte) (*clientHello, error) {
 	//	return nil, ErrIllegalParameter
 	//}
 
+	// A ClientHello from a version of TLS before 1.3 may end here, without
+	// an extensions field. https://datatracker.ietf.org/doc/html/rfc8446#section-4.1.2
 	var extensions cryptobyte.String
-	if !s.ReadUint16LengthPrefixed(&extensions) {
+	if s.Empty() {
+		hello.noExtensions = true
+	} else if !s.ReadUint16LengthPrefixed(&extensions) {
 		return nil, ErrDecodeError
 	}
 
